@@ -553,14 +553,23 @@ static void c10Case(Rng &rng, CaseResult &r) {
   // fault enumeration: every callback index, two exception types
   long long points = 0;
   for (int k = 1; k <= K; ++k) {
-    for (int kind = 0; kind < 2; ++kind) {
+    for (int kind = 0; kind < 3; ++kind) {
       Circuit c = c0;
       int n = 0;
       bool legalizedExposed = false;
       PlacementCallback cb = [&](PlacementStep) {
         ++n;
         if (stage >= 1) legalizedExposed = true;
-        if (n == k) { if (kind == 0) throw CbThrow(); else throw NonStd{7}; }
+        if (n == k) {
+          if (kind == 2) {
+            // the updates that are permitted while a call is in progress (sizes and net weights; same values re-sent),
+            // made in the very invocation that then aborts the call
+            c.setCellWidth(c.cellWidth_);
+            c.setCellHeight(c.cellHeight_);
+            c.setNetWeights(c.netWeights_);
+          }
+          if (kind != 1) throw CbThrow(); else throw NonStd{7};
+        }
       };
       bool threw = false;
       try { call(c, cb); } catch (const CbThrow &) { threw = true; } catch (const NonStd &) { threw = true; } catch (const std::exception &e) {
@@ -573,16 +582,40 @@ static void c10Case(Rng &rng, CaseResult &r) {
       if (!e.empty()) { r.fail("C10:setter-refused-after-callback-exception", "throw at callback " + std::to_string(k) + "/" + std::to_string(K) + " in " + stageName[stage] + ": " + e); break; }
       std::string fd = frameDiff(c0, c, stage == 0);
       if (!fd.empty()) r.fail("C10:frame-changed-after-callback-exception", fd);
-      // a further placement call must run to an ordinary end
-      try {
+      // a further placement call (observed by a callback that does nothing) must behave exactly as it does on a twin:
+      // a pristine copy of the original circuit that is given the same positions and orientations. Any difference in
+      // outcome or result is state the aborted call left behind.
+      {
+        Circuit twin = c0;
+        twin.cellX_ = c.cellX_;
+        twin.cellY_ = c.cellY_;
+        twin.cellOrientation_ = c.cellOrientation_;
         ColoquinteParameters p2(3, 1);
         p2.global.maxNbSteps = 3;
-        if (kind == 0) c.legalize(p2); else c.placeDetailed(p2);
-        r.count("followup_returned");
-      } catch (const std::exception &) {
-        r.count("followup_threw");
-      } catch (...) {
-        r.fail("non-std-exception:followup", "follow-up placement threw a non-std exception");
+        bool useLegalize = kind == 0 || (kind == 2 && (k & 1));
+        auto follow = [&](Circuit &cc, std::string &err) -> bool {
+          PlacementCallback nop = [](PlacementStep) {};
+          try {
+            if (useLegalize) cc.legalize(p2, nop); else cc.placeDetailed(p2, nop);
+            return true;
+          } catch (const std::exception &e) {
+            err = e.what();
+            return false;
+          } catch (...) {
+            err = "non-std exception";
+            return false;
+          }
+        };
+        std::string errC, errT;
+        bool okC = follow(c, errC), okT = follow(twin, errT);
+        r.count(okC ? "followup_returned" : "followup_threw");
+        if (errC == "non-std exception") r.fail("non-std-exception:followup", "follow-up placement threw a non-std exception");
+        if (okC != okT || errC != errT)
+          r.fail("C10:followup-call-differs-from-pristine-twin", std::string("after a callback exception at index ") + std::to_string(k) + " of " + stageName[stage] + (kind == 2 ? " (the callback had re-sent sizes and net weights)" : "") +
+                 ", a further " + (useLegalize ? "legalize" : "placeDetailed") + " " + (okC ? "returned" : "threw '" + errC + "'") + " whereas on a pristine copy with the same placement it " + (okT ? "returned" : "threw '" + errT + "'"));
+        else if (!samePlacement(c, twin))
+          r.fail("C10:followup-result-differs-from-pristine-twin", std::string("after a callback exception in ") + stageName[stage] + " a further placement call computes a different placement than on a pristine copy with the same positions");
+        else r.count("followup_twin_agreed");
       }
       std::string e2 = settersAccepted(c);
       if (!e2.empty()) { r.fail("C10:setter-refused-after-followup", e2); break; }
